@@ -379,7 +379,7 @@ def run_names(case: dict) -> dict:
         conn = snowflake.connector.connect(database=recase(random.Random(1), case["ids"]["conn_db"][0]), schema=case["spell"]["conn_schema"].strip('"'))
         obs["connect"] = [conn.database, conn.schema]
         try:
-            obs["create_table"] = ex(conn, f"create table {sp['t']} ({sp['c1']} int, {sp['c2']} varchar, {sp['c3']} int)").fetchall()[0][0]
+            obs["create_table"] = ex(conn, f"create table {sp['t']} ({sp['c1']} int primary key, {sp['c2']} varchar, {sp['c3']} int)").fetchall()[0][0]
             ex(conn, f"insert into {rs['t']} values (1, 'a', 2)")
             cur = ex(conn, f"select {rs['c1']}, {rs['c2']} as {sp['al']}, {rs['c3']} from {rs['t']}")
             obs["select_desc"] = [d.name for d in cur.description]
@@ -388,6 +388,8 @@ def run_names(case: dict) -> dict:
             cur = ex(conn, f"select * from {rs['t']}")
             obs["star_desc"] = [d.name for d in cur.description]
             obs["describe"] = [r[0] for r in ex(conn, f"describe table {rs['t']}").fetchall()]
+            obs["show_pk_table"] = [[r[3], r[4]] for r in ex(conn, f"show primary keys in table {rs['t']}").fetchall()]
+            obs["show_pk_schema"] = [[r[2], r[3], r[4]] for r in ex(conn, f"show primary keys in schema {conn.database}.{conn.schema}").fetchall()]
             obs["info_tables"] = [r[0] for r in ex(conn, f"select table_name from information_schema.tables where table_schema = '{conn.schema}' and table_name = '{lit('t')}'").fetchall()]
             obs["info_columns"] = [r[0] for r in ex(conn, f"select column_name from information_schema.columns where table_name = '{lit('t')}' order by ordinal_position").fetchall()]
             obs["show_tables"] = sorted(r[1] for r in ex(conn, f"show tables in schema {conn.database}.{conn.schema}").fetchall())
@@ -575,6 +577,8 @@ def _check_names(chk, case, real, reply) -> None:
         "dict_keys": [N["c1"], N["al"]],
         "star_desc": [N["c1"], N["c2"], N["c3"]],
         "describe": [N["c1"], N["c2"], N["c3"]],
+        "show_pk_table": [[N["t"], N["c1"]]],
+        "show_pk_schema": [[N["conn_schema"], N["t"], N["c1"]]],
         "info_tables": [N["t"]],
         "info_columns": [N["c1"], N["c2"], N["c3"]],
         "show_tables": [N["t"]],
